@@ -403,3 +403,32 @@ def check_seam(ix, rep, rule='R-SEAM'):
                          '`out = a or historically[0,2](once[0,1](a))`, a = [[0,1],[1,3],[2,2],[3,0.5],[4,4],[5,1],[6,2]] fed as a[:2], a[2:]: RTAMTException "Unexpected case in the '
                          'intersection"; in one chunk: [[0,1],[1,3],[2,2],[4,4],[5,2],[6,2]]' % attr, st.lineno)
     return n
+
+
+# ------------------------------------------------------------------------------------------------- R-SHAPE (closing sample of the merge kernel)
+def check_closing_sample_shape(ix, rep, rule='R-SHAPE'):
+    """the online merge kernel returns (samples, closing sample, remainder 1, remainder 2); its callers test the closing sample for emptiness, read its
+    time-stamp and append it to the result.  Every value it is given is therefore a sample `[t, v]` or an empty list -- a scalar (`float('nan')`) is
+    truthy, has no `[0]`, and ends up in the output list as if it were a sample"""
+    m = ix.module('rtamt.semantics.stl.dense_time.online.intersection')
+    f = m.functions.get('intersection')
+    if f is None:
+        raise AnalysisError('online intersection kernel vanished')
+    rets = [r for r in ast.walk(f.node) if isinstance(r, ast.Return) and isinstance(r.value, ast.Tuple) and len(r.value.elts) == 4]
+    names = {r.value.elts[1].id for r in rets if isinstance(r.value.elts[1], ast.Name)}
+    n = 0
+    rep.analysed(f)
+    for st in ast.walk(f.node):
+        if isinstance(st, ast.Assign) and len(st.targets) == 1 and isinstance(st.targets[0], ast.Name) and st.targets[0].id in names:
+            n += 1
+            v = st.value
+            ok = (isinstance(v, ast.List) and len(v.elts) in (0, 2)) or (isinstance(v, ast.Call) and isinstance(v.func, ast.Name) and v.func.id == 'list' and not v.args) \
+                or (isinstance(v, ast.Name))
+            slot = 'closing-sample:%d' % n
+            if ok:
+                rep.ok(rule, m.rel, 'intersection', slot, 'a sample or no sample', st.lineno)
+            else:
+                rep.fail(rule, m.rel, 'intersection', 'closing-sample:scalar', 'the closing sample is set to `%s`, not to a sample or an empty list: when one operand\'s chunk lies wholly before the '
+                         'other\'s (signals fed at different rates) the operation returns the scalar in its output list and the next update raises TypeError -- `out = a + b`: '
+                         'update(a=[[0,3],[1,-1]], b=[]), update(a=[], b=[[2,3],[3,0]]) returns [nan], the third update raises "\'float\' object is not subscriptable"' % ast.unparse(v)[:30], st.lineno)
+    return n
